@@ -14,7 +14,7 @@ from . import canon, core
 
 REACTIONS: dict = {}
 CFG = None
-THREE_BODY_RELABEL = ("gpp_h", "gpp_c", "gpp1_h", "lc_h", "j3pi_h", "ksp_h", "ppg_h", "d3pi_h")
+THREE_BODY_RELABEL = ("gpp_h", "gpp_c", "gpp1_h", "lc_h", "lc_c", "j3pi_h", "ksp_h", "ppg_h", "ppg_c", "d3pi_h")
 
 
 class InjectedFault(Exception):
@@ -307,7 +307,3 @@ class Interrupter:
     def __exit__(self, *exc):
         sys.settrace(None)
         return False
-
-
-def clear_sympy_independent_state() -> None:
-    functools.lru_cache  # noqa: B018  (placeholder: nothing to clear; documented for symmetry)
